@@ -96,7 +96,7 @@ func init() {
 		}
 		if ok, detail, resp := c01Check(o, c); !ok {
 			sig := sigOf(c)
-			if s := siteOf(func() { runBool(c) }, resp, "splitDiscard"); s != "" {
+			if s := siteOf(func() { runBool(c) }, resp, "splitDiscard", "microSelfIntersect"); s != "" {
 				sig = s
 			}
 			return &Violation{Property: "C01", Kind: "region-mismatch", Signature: sig, Detail: detail, Case: c}
@@ -140,7 +140,7 @@ func searchC01(ctx *Ctx, n int) Result {
 			}
 			_, detail, resp = c01Check(o, c)
 			sig := sigOf(c)
-			if s := siteOf(func() { runBool(c) }, resp, "splitDiscard"); s != "" {
+			if s := siteOf(func() { runBool(c) }, resp, "splitDiscard", "microSelfIntersect"); s != "" {
 				sig = s
 			}
 			col.Violate(Violation{Property: "C01", Kind: "region-mismatch", Signature: sig, Detail: detail, Case: c, Stream: "c01", Index: i, Seed: ctx.Seed})
